@@ -156,6 +156,13 @@ WideChunk == LET W == BPow2(60) Z == 536870912 IN
              {FF(W, Z), FF(BNeg(W), Z), FF(BSub(W, N(1)), Z - 1), FF(BAdd(W, N(1)), Z)}
 SmallLists == Lists(Chunks((-ChunkNeg)..ChunkPos, ChunkSizes), MaxChunks) \cup Lists(Chunks(ChunkFees3, ChunkSizes3), 3)
 WideLists == Lists(WideChunk, 2)
+\* Known finding (see known_findings.jsonl): every fee sum of either diagram is inside int64, as the header comment of
+\* CompareChunks requires, but the difference between a point of one diagram and a point of the other is not.  The pairs
+\* below are <<chunks0, chunks1>>; the last one (2^61) is the control whose differences still fit.
+OvF == BAdd(BPow2(62), BPow2(61))
+OvPair(f, s) == << <<FF(f, s), FF(N(1), s)>>, <<FF(BNeg(f), s), FF(N(-1), s)>> >>
+Mirror(p) == <<p[2], p[1]>>
+OverflowPairs == {OvPair(OvF, 1), Mirror(OvPair(OvF, 1)), OvPair(BSub(OvF, N(1)), 1), OvPair(OvF, 1000), OvPair(BPow2(61), 1)}
 
 \* ------------------------------------------------------------------ the specification of the operations
 Cross(a, b) == BMul(a.fee, b.size)                          \* fee_a * size_b, exact
@@ -208,7 +215,7 @@ Seeds(k) ==
     [] k = "div"    -> {[n |-> n] : n \in DivNums}
     [] k = "getfee" -> {[ctor |-> "pair", f |-> f] : f \in {g \in Small \cup Wide : ~g.fee.neg}}
                          \cup {[ctor |-> "kvb", f |-> FF(r, 1000)] : r \in KvbRates}
-    [] k = "chunks" -> {[c0 |-> c] : c \in SmallLists \cup WideLists}
+    [] k = "chunks" -> {[c0 |-> c] : c \in SmallLists \cup WideLists \cup {p[1] : p \in OverflowPairs}}
 
 Init == kind \in Kinds /\ arg \in Seeds(kind) /\ res = NoRes /\ done = FALSE
 
@@ -238,7 +245,8 @@ GetFeeNext == /\ kind = "getfee"
                    /\ res' = [fee |-> GetFee(arg.f, vb)]
                    /\ Fits64(res'.fee)
 ChunksNext == /\ kind = "chunks"
-              /\ \E c1 \in (IF arg.c0 \in SmallLists THEN SmallLists ELSE WideLists) :
+              /\ \E c1 \in (IF arg.c0 \in SmallLists THEN SmallLists ELSE IF arg.c0 \in WideLists THEN WideLists
+                            ELSE {p[2] : p \in {q \in OverflowPairs : q[1] = arg.c0}}) :
                    /\ arg' = [c0 |-> arg.c0, c1 |-> c1]
                    /\ res' = [cmp |-> CompareChunks(arg.c0, c1)]
 Next == ~done /\ done' = TRUE /\ kind' = kind /\ (CmpNext \/ EvalNext \/ DivNext \/ GetFeeNext \/ ChunksNext)
@@ -326,6 +334,7 @@ Row ==
     [] kind = "eval"   -> [kind |-> kind, f |-> JF(arg.f), at |-> arg.at, prod |-> Out(res.prod), down |-> Out(res.down), up |-> Out(res.up)]
     [] kind = "div"    -> [kind |-> kind, n |-> Out(arg.n), d |-> arg.d, down |-> Out(res.down), up |-> Out(res.up)]
     [] kind = "getfee" -> [kind |-> kind, ctor |-> arg.ctor, f |-> JF(arg.f), vbytes |-> arg.vbytes, fee |-> Out(res.fee)]
-    [] kind = "chunks" -> [kind |-> kind, c0 |-> JL(arg.c0), c1 |-> JL(arg.c1), cmp |-> res.cmp]
+    [] kind = "chunks" -> [kind |-> kind, c0 |-> JL(arg.c0), c1 |-> JL(arg.c1), cmp |-> res.cmp,
+                           family |-> (IF <<arg.c0, arg.c1>> \in OverflowPairs THEN "overflow" ELSE "grid")]
 EmitRow == IF done THEN VFRow(Row) ELSE VFRow([kind |-> "seed"])
 ====
